@@ -145,6 +145,17 @@ def check (inp out : List String) : Verdict :=
           !(b.length == 10 && decide (headerOk b (b.getD 4 0) (b.getD 5 0 * 256 + b.getD 6 0)))
       { agree := m == r, model := m, specFail := failing [("header_exact", specOk)] }
     | none => .bad "hdr hex"
+  | "hdrs" :: hs, rs =>
+    -- several headers read one after the other from ONE stream: each is accepted or rejected on its own
+    match hs.mapM hexBytes? with
+    | some bs =>
+      let want := bs.map fun b => match parseHeader b with
+        | .ok (t, l) => s!"ok:{t}:{l}"
+        | .error _ => "err"
+      let got := rs.map fun r => if r.startsWith "err:" then "err" else r
+      { agree := got == want, model := joinSp want,
+        specFail := failing [("every_header_on_a_stream_is_judged_on_its_own", got == want)] }
+    | none => .bad "hdrs hex"
   | ["decshort", _k, size, stream], [res] =>
     -- the transport ends before the declared payload is there: `recv_packet` needs `size` bytes for a value and
     -- reads (or discards) that many before it can fail for another reason, so the outcome is always an error
